@@ -453,7 +453,13 @@ def extra(tier, rng, workdir):
         note.update({"what": "unconfirmed re-announcement delivered as a new tx carrying the merkle proof of a "
                              "reverted block (header not held any more) and unconfirmed depth 0",
                      "cfg": r["cfg"], "ops": r["ops"], "step": r["step"], "observed": r["observed"]})
-    return {"coverage": {"input_distribution": dict(COVER), "reannounced_with_stale_proof_not_counted_as_C04": note}}
+    # "previously seen or not": a tx of the block whose tx message the tx thread takes while ProcessBlock is inside the
+    # block (pause points; gen/txflow.py race_extra): code 108 = no notification with this block's proof
+    rx = txflow.race_extra(tier, rng, workdir)
+    fails = [f for f in rx["failures"] if (f.get("expected") or [0])[0] == 108]
+    rcov = {k: v for k, v in rx["coverage"].items() if "block_tx_race" in k}
+    return {"failures": fails, "evaluations": rcov.get("block_tx_race_scenarios", 0) + rcov.get("early_block_tx_race_scenarios", 0),
+            "coverage": {"input_distribution": dict(COVER), "reannounced_with_stale_proof_not_counted_as_C04": note, **rcov}}
 
 
 REANNOUNCED = []
@@ -462,6 +468,8 @@ REANNOUNCED = []
 def accept_failure(rec):
     if txflow.note_stale(rec):     # observation 181 of the pipeline suite (same fact as "reannounce" below): not judged
         return False
+    if rec.get("suite") == "txflow-race":
+        return True
     if rec.get("suite") == "txflow":
         ops, st = rec.get("ops", []), rec.get("step", 0)
         at_block = 0 <= st < len(ops) and ops[st][0] == "block"
@@ -487,6 +495,8 @@ def block_class(o):
 
 
 def keyfn(rec):
+    if rec.get("suite") == "txflow-race":
+        return txflow.race_key(rec)
     if rec.get("suite") == "txflow":
         return txflow.keyfn(rec)
     ops = rec.get("ops", [])
